@@ -177,6 +177,23 @@ fn differential(l: &mut Local, m: &Mat, rng: &mut Rng) {
         if want.is_err() {
             continue;
         }
+        // (only when the decoder itself agrees at the finite limit: otherwise the difference is reported as such,
+        // and an unlimited call on a decoder that does not converge would never return)
+        let same_at_12 = if sched == "flooding" { guard(|| fl.decode(&llrs, 12)) } else { guard(|| hl.decode(&llrs, 12)) };
+        match same_at_12 {
+            Ok(g) if g == want => {}
+            Ok(g) => {
+                l.violation(
+                    format!("{} decoder with exact integer min-sum differs from the textbook schedule (limit 12)", sched),
+                    m.json().set("llrs", jfs(&llrs)).set("limit", 12).set("decoder", fmt_res(&g)).set("textbook", fmt_res(&want)),
+                );
+                return;
+            }
+            Err(p) => {
+                l.violation(format!("generic {} decoder panicked with a user-defined arithmetic: {}", sched, panic_class(&p)), m.json().set("llrs", jfs(&llrs)).set("limit", 12).set("panic", p));
+                return;
+            }
+        }
         for limit in [usize::MAX, usize::MAX - 1] {
             l.eval();
             let got = if sched == "flooding" { guard(|| fl.decode(&llrs, limit)) } else { guard(|| hl.decode(&llrs, limit)) };
